@@ -359,10 +359,19 @@ fn main() {
                     script.push((When::Packets(pk), Op::Publish));
                 }
             }
-            if rng.chance(1, 4) {
+            // a second removal of an object that is already gone must change nothing
+            if !removed.is_empty() && rng.chance(1, 4) {
+                let r = *rng.pick(&removed);
+                pk += rng.range(0, 30) as usize;
+                script.push((When::Packets(pk), Op::Remove(r)));
+            }
+            // 0-3 triggers, immediate or at an instant up to 2 s after the epoch (past or future when executed)
+            let ntrig = if rng.chance(1, 3) { rng.range(1, 3) } else { 0 };
+            for _ in 0..ntrig {
                 let t = rng.below(objs.len() as u64) as usize;
                 pk += rng.range(0, 30) as usize;
-                script.push((When::Packets(pk), Op::Trigger(t, None)));
+                let at = if rng.chance(1, 2) { None } else { Some(rng.below(2000)) };
+                script.push((When::Packets(pk), Op::Trigger(t, at)));
             }
             // script order must follow packet thresholds
             let mut last = 0usize;
